@@ -1,2 +1,216 @@
-import Tftp.Model.Sender
+import Tftp.Lemmas.SenderStep
 import Tftp.Model.Receiver
+/-!
+# C07 — Termination: transfers end at the final block, on ERROR, or after bounded retry
+-/
+namespace Tftp
+
+/-! ## sender -/
+
+/-- once ended (`Ok` or `Err` returned) the worker emits nothing and never changes again -/
+theorem c07_quiet_after_end (c : SCfg) (s : SState) (ev : SEv) (dt : Nat)
+    (h : s.status = .ok ∨ s.status = .failed) : sStep c s ev dt = (s, []) := by
+  unfold sStep
+  rcases h with h | h <;> simp [h]
+
+theorem c07_quiet_run_after_end (c : SCfg) (s : SState) (evs : List (SEv × Nat))
+    (h : s.status = .ok ∨ s.status = .failed) :
+    (sRunFrom c s evs).2 = s ∧ ∀ g ∈ (sRunFrom c s evs).1, g = [] := by
+  induction evs with
+  | nil => simp [sRunFrom]
+  | cons e es ih =>
+    simp only [sRunFrom, c07_quiet_after_end c s e.1 e.2 h]
+    refine ⟨ih.1, ?_⟩
+    intro g hg
+    simp at hg
+    rcases hg with hg | hg
+    · exact hg
+    · exact ih.2 g hg
+
+/-- a peer ERROR ends the transfer at once, in the data phase and in the handshake, with no output -/
+theorem c07_stop_on_error (c : SCfg) (s : SState) (dt : Nat) (h : s.status = .running ∨ s.status = .handshake) :
+    (sStep c s .error dt).1.status = .failed ∧ (sStep c s .error dt).2 = [] := by
+  unfold sStep
+  rcases h with h | h <;> simp [h]
+
+/-- reply to the OACK: only ACK 0 (or a stray non-ACK, non-ERROR packet) starts the data phase;
+ERROR, a failed receive, or ACK n ≠ 0 end the transfer without a single DATA
+(ACK n ≠ 0 is answered by exactly one ERROR 4) -/
+theorem c07_handshake (c : SCfg) (s : SState) (ev : SEv) (dt : Nat) (h : s.status = .handshake) :
+    (ev = .error ∨ ev = .fail → sStep c s ev dt = ({ s with status := .failed }, [])) ∧
+    (∀ n, n ≠ 0 → sStep c s (.ack n) dt = ({ s with status := .failed }, [illegalOp])) ∧
+    (ev = .ack 0 ∨ ev = .other → sStep c s ev dt = sOuter c { s with status := .running }) := by
+  unfold sStep
+  refine ⟨?_, ?_, ?_⟩
+  · rintro (rfl | rfl) <;> simp [h]
+  · intro n hn; simp [h, hn]
+  · rintro (rfl | rfl) <;> simp [h]
+
+/-- the sender never emits a block beyond the file's final block `N` -/
+theorem c07_never_beyond_final (c : SCfg) (hb : 0 < c.b) (hw : c.w < 65536) (f : Bytes) (chk : Bool)
+    (evs : List (SEv × Nat)) :
+    ∀ g ∈ (sRun c f chk evs).1, ∀ p ∈ g, ∀ n d, p = .data n d →
+      ∃ k, 1 ≤ k ∧ k ≤ nblocks c.b f ∧ n = k % 65536 ∧ d = blk c.b f k := by
+  intro g hg p hp n d hpd
+  rcases (run_good hb hw f chk evs).2 g hg p hp with ⟨k, h1, h2, h3⟩ | h
+  · subst hpd
+    injection h3 with h4 h5
+    exact ⟨k, h1, h2, h4, h5⟩
+  · subst hpd; simp [illegalOp] at h
+
+/-- an acknowledgement of the last outstanding block when the final block has been read
+ends the transfer successfully with no further output -/
+theorem c07_stop_on_final_ack (c : SCfg) (hw : c.w < 65536) (f : Bytes) (s : SState) (h : SInv c f s)
+    (hrun : s.status = .running) (heof : s.win.eof = true) (hne : 0 < s.win.elems.length)
+    (n dt : Nat) (hn : (n + 65536 - s.bn) % 65536 = s.win.elems.length - 1) :
+    (sStep c s (.ack n) dt).1.status = .ok ∧ (sStep c s (.ack n) dt).2 = [] := by
+  have hlen : s.win.len = s.win.elems.length := by
+    unfold Window.len
+    have := h.len_le
+    exact Nat.mod_eq_of_lt (by omega)
+  have hfilled : s.filled = false := by rw [h.filled_eq, heof]; rfl
+  unfold sStep
+  simp only [hrun, hlen, hn]
+  have hlt : s.win.elems.length - 1 < s.win.elems.length := by omega
+  simp only [hlt, ↓reduceIte]
+  have hdrop : List.drop (s.win.elems.length - 1 + 1) s.win.elems = [] := by
+    apply List.drop_eq_nil_of_le; omega
+  simp [slide, Window.isEmpty, hfilled, hdrop]
+
+/-- one more failed receive attempt: the retry counter grows by one, or the worker ends -/
+theorem fail_step (c : SCfg) (s : SState) (ev : SEv) (dt : Nat) (hrun : s.status = .running)
+    (hev : ev = .fail ∨ ev = .other) :
+    ((sStep c s ev dt).1.status = .failed ∧ s.retry + 1 = Gen.maxRetries) ∨
+    ((sStep c s ev dt).1.status = .running ∧ (sStep c s ev dt).1.retry = s.retry + 1) := by
+  unfold sStep
+  rcases hev with rfl | rfl
+  all_goals
+    simp only [hrun]
+    by_cases hr : s.retry + 1 = Gen.maxRetries
+    · left; simp [hr]
+    · right
+      simp only [hr, ↓reduceIte]
+      unfold sHead
+      split <;> simp [hrun]
+
+/-- **bounded silence**: from every running state, `MAX_RETRIES` consecutive failed receive attempts
+(time-outs, undecodable or stray datagrams) end the transfer — it never waits or retransmits forever -/
+theorem c07_bounded_silence (c : SCfg) (f : Bytes) :
+    ∀ (evs : List (SEv × Nat)) (s : SState), SInv c f s → s.status = .running →
+      (∀ e ∈ evs, e.1 = .fail ∨ e.1 = .other) → Gen.maxRetries - s.retry ≤ evs.length →
+      (sRunFrom c s evs).2.status = .failed := by
+  intro evs
+  induction evs with
+  | nil =>
+    intro s h hrun _ hlen
+    have := h.retry_lt (by simp [hrun])
+    simp at hlen; omega
+  | cons e es ih =>
+    intro s h hrun hall hlen
+    simp only [sRunFrom]
+    have hb1 : SInv c f (sStep c s e.1 e.2).1 → True := fun _ => trivial
+    rcases fail_step c s e.1 e.2 hrun (hall e (by simp)) with ⟨hf, _⟩ | ⟨hr, hre⟩
+    · have := (c07_quiet_run_after_end c (sStep c s e.1 e.2).1 es (Or.inr hf)).1
+      rw [this]; exact hf
+    · -- still running: the invariant only matters through `retry < MAX_RETRIES`, re-established below
+      have hlt : (sStep c s e.1 e.2).1.retry < Gen.maxRetries := by
+        rw [hre]
+        have := h.retry_lt (by simp [hrun])
+        rcases fail_step c s e.1 e.2 hrun (hall e (by simp)) with ⟨hf, _⟩ | _
+        · rw [hr] at hf; simp at hf
+        · by_cases heq : s.retry + 1 = Gen.maxRetries
+          · exfalso
+            have hs : (sStep c s e.1 e.2).1.status = .failed := by
+              unfold sStep
+              rcases hall e (by simp) with he | he <;> simp [he, hrun, heq]
+            rw [hr] at hs; simp at hs
+          · omega
+      exact ih_aux c f es (sStep c s e.1 e.2).1 hr hlt (fun x hx => hall x (by simp [hx]))
+        (by rw [hre]; simp at hlen; omega)
+where
+  ih_aux (c : SCfg) (f : Bytes) : ∀ (evs : List (SEv × Nat)) (s : SState), s.status = .running →
+      s.retry < Gen.maxRetries → (∀ e ∈ evs, e.1 = .fail ∨ e.1 = .other) →
+      Gen.maxRetries - s.retry ≤ evs.length → (sRunFrom c s evs).2.status = .failed := by
+    intro evs
+    induction evs with
+    | nil => intro s _ hlt _ hlen; simp at hlen; omega
+    | cons e es ih =>
+      intro s hrun hlt hall hlen
+      simp only [sRunFrom]
+      rcases fail_step c s e.1 e.2 hrun (hall e (by simp)) with ⟨hf, _⟩ | ⟨hr, hre⟩
+      · have := (c07_quiet_run_after_end c (sStep c s e.1 e.2).1 es (Or.inr hf)).1
+        rw [this]; exact hf
+      · have hne : s.retry + 1 ≠ Gen.maxRetries := by
+          intro heq
+          have hs : (sStep c s e.1 e.2).1.status = .failed := by
+            unfold sStep
+            rcases hall e (by simp) with he | he <;> simp [he, hrun, heq]
+          rw [hr] at hs; simp at hs
+        exact ih _ hr (by rw [hre]; omega) (fun x hx => hall x (by simp [hx]))
+          (by rw [hre]; simp at hlen; omega)
+
+/-- the retry budget is positive and is what the source says (`MAX_RETRIES`) -/
+theorem c07_max_retries_pos : 0 < Gen.maxRetries := by decide
+
+/-! ## receiver -/
+
+theorem c07_receiver_quiet_after_end (c : RCfg) (s : RState) (ev : REv)
+    (h : s.status = .ok ∨ s.status = .failed) : rStep c s ev = (s, []) := by
+  unfold rStep
+  rcases h with h | h <;> simp [h]
+
+theorem c07_receiver_stop_on_error (c : RCfg) (s : RState) (h : s.status = .running) :
+    (rStep c s .error).1.status = .failed ∧ (rStep c s .error).2 = [] := by
+  unfold rStep; simp [h]
+
+/-- the final (short) block is flushed, acknowledged, and the receiver ends — nothing more follows -/
+theorem c07_receiver_stops_after_final (c : RCfg) (s : RState) (n : Nat) (payload : Bytes)
+    (hrun : s.status = .running) (hseq : n = (s.bn + 1) % 65536) (hshort : payload.length < c.b) :
+    (rStep c s (.data n payload)).1.status = .ok ∨ (rStep c s (.data n payload)).1.status = .failed := by
+  unfold rStep
+  simp only [hrun, hseq, ↓reduceIte]
+  split
+  · simp only [hshort, ↓reduceIte]
+    unfold markOk flushAck
+    split <;> simp
+  · right; rfl
+
+theorem r_fail_step (c : RCfg) (s : RState) (hrun : s.status = .running) :
+    ((rStep c s .fail).1.status = .failed ∧ s.retry + 1 = Gen.maxRetries) ∨
+    ((rStep c s .fail).1.status = .running ∧ (rStep c s .fail).1.retry = s.retry + 1) := by
+  unfold rStep
+  simp only [hrun]
+  by_cases hr : s.retry + 1 = Gen.maxRetries
+  · left; simp [hr]
+  · right; simp [hr, hrun]
+
+/-- bounded silence, receiving side -/
+theorem c07_receiver_bounded_silence (c : RCfg) :
+    ∀ (n : Nat) (s : RState), s.status = .running → s.retry < Gen.maxRetries →
+      Gen.maxRetries - s.retry ≤ n →
+      (rRunFrom c s (List.replicate n .fail)).2.status = .failed := by
+  intro n
+  induction n with
+  | zero => intro s _ hlt hlen; omega
+  | succ n ih =>
+    intro s hrun hlt hlen
+    simp only [List.replicate_succ, rRunFrom]
+    rcases r_fail_step c s hrun with ⟨hf, _⟩ | ⟨hr, hre⟩
+    · have hq : ∀ (m : Nat) (t : RState), t.status = .failed →
+          (rRunFrom c t (List.replicate m .fail)).2.status = .failed := by
+        intro m
+        induction m with
+        | zero => intro t ht; simpa [rRunFrom] using ht
+        | succ m ihm =>
+          intro t ht
+          simp only [List.replicate_succ, rRunFrom, c07_receiver_quiet_after_end c t .fail (Or.inr ht)]
+          exact ihm t ht
+      exact hq n _ hf
+    · have hne : s.retry + 1 ≠ Gen.maxRetries := by
+        intro heq
+        have hs : (rStep c s .fail).1.status = .failed := by
+          unfold rStep; simp [hrun, heq]
+        rw [hr] at hs; simp at hs
+      exact ih _ hr (by rw [hre]; omega) (by rw [hre]; omega)
+
+end Tftp
